@@ -329,6 +329,44 @@ def pc_epoch(pc, eng):
 
 
 # ================================================================================================ R5.2
+def _is_result(e, res_name, par):
+    """e denotes the list of per-job results: the name bound to the Parallel call, the call itself, or a
+    pass-through generator over it"""
+    if e is par or (res_name is not None and isinstance(e, ast.Name) and e.id == res_name):
+        return True
+    if isinstance(e, (ast.GeneratorExp, ast.ListComp)) and len(e.generators) == 1 and not e.generators[0].ifs and \
+            isinstance(e.elt, ast.Name) and isinstance(e.generators[0].target, ast.Name) and \
+            e.elt.id == e.generators[0].target.id:
+        return _is_result(e.generators[0].iter, res_name, par)
+    return False
+
+
+def _ordered_reduction(node, res_name, par):
+    if isinstance(node, ast.Call):
+        f = ast.unparse(node.func)
+        if f == "list" and len(node.args) == 1 and isinstance(node.args[0], ast.Call):
+            g = node.args[0]
+            gf = ast.unparse(g.func)
+            if gf in ("chain.from_iterable", "itertools.chain.from_iterable") and g.args and \
+                    _is_result(g.args[0], res_name, par):
+                return True
+            if gf in ("chain", "itertools.chain") and len(g.args) == 1 and isinstance(g.args[0], ast.Starred) and \
+                    _is_result(g.args[0].value, res_name, par):
+                return True
+        if f in ("np.concatenate", "np.hstack") and node.args and _is_result(node.args[0], res_name, par):
+            return True
+        if f == "sum" and len(node.args) == 2 and _is_result(node.args[0], res_name, par) and \
+                ast.unparse(node.args[1]) in ("[]", "list()"):
+            return True
+    if isinstance(node, ast.ListComp) and len(node.generators) == 2 and not any(g.ifs for g in node.generators):
+        g1, g2 = node.generators
+        if _is_result(g1.iter, res_name, par) and isinstance(g1.target, ast.Name) and \
+                isinstance(g2.iter, ast.Name) and g2.iter.id == g1.target.id and \
+                isinstance(g2.target, ast.Name) and isinstance(node.elt, ast.Name) and node.elt.id == g2.target.id:
+            return True
+    return False
+
+
 def check_partition_sites(ctx):
     prog = ctx.prog
     n = 0
@@ -427,16 +465,20 @@ def check_partition_sites(ctx):
                       "before the tasks start, with a size that is the total row count" % qual,
                       seeds_stmt if seeds_stmt is not None else par, fn, "size=%s" % size,
                       construct="seed draw of " + qual)
-        # ordered reduction
+        # ordered reduction: the per-job results are joined completely and in submission order
+        pstmt = parent(par)
+        res_name = ast.unparse(pstmt.targets[0]) if isinstance(pstmt, ast.Assign) and len(pstmt.targets) == 1 and \
+            isinstance(pstmt.targets[0], ast.Name) else None
         red = None
         for node in ast.walk(fn.node):
-            if isinstance(node, ast.Call) and ast.unparse(node.func) in ("chain.from_iterable",
-                                                                          "itertools.chain.from_iterable"):
+            if getattr(node, "lineno", 0) >= par.lineno and _ordered_reduction(node, res_name, par):
                 red = node
-        okr = red is not None and red.lineno > par.lineno and isinstance(parent(red), ast.Call) and \
-            ast.unparse(parent(red).func) == "list"
-        ctx.check(okr, "R5.2", "%s: results are concatenated in submission order (list(chain.from_iterable))" % qual,
-                  red if red is not None else par, fn, construct="reduction of " + qual)
+                break
+        ctx.check(red is not None, "R5.2", "%s: results are concatenated in submission order" % qual,
+                  red if red is not None else par, fn, "no list(chain.from_iterable(r)) / np.concatenate(r) / "
+                  "[y for x in r for y in x] over the Parallel result `%s` found (a merge that can drop or reorder "
+                  "per-job results makes the outcome depend on the partition)" % res_name,
+                  construct="reduction of " + qual)
     ctx.floor("R5.2", "row-partitioned Parallel sites", n, 4)
 
 
@@ -488,7 +530,9 @@ def check_task_functions(ctx):
     prog = ctx.prog
     tasks = [prog.method(c, "_fit_arm") for c in ("_EpsilonGreedy", "_UCB1", "_Softmax", "_ThompsonSampling",
                                                   "_Linear", "_TreeBandit")]
-    tasks += [prog.method("_LSHNearest", "_add_neighbors"), prog.method("_LSHSimulator", "_add_neighbors")]
+    # the LSH bucket writers are tasks only as long as _fit_operation files the buckets through them
+    tasks += [f for f in (prog.cls("_LSHNearest").methods.get("_add_neighbors"),
+                          prog.cls("_LSHSimulator").methods.get("_add_neighbors")) if f is not None]
     n = 0
     for fn in tasks:
         ctx.saw_fn(fn)
